@@ -828,9 +828,12 @@ class Processor:
                 elif parentref in parent:
                     del parent[parentref]
             elif isinstance(parent, (CommentedSeq, list)):
+                # An equal-bounds slice, [N:N], wraps its one element in a list
                 if (isinstance(parentref, int)
                     and -len(parent) <= parentref < len(parent)
-                    and parent[parentref] is node
+                    and (parent[parentref] is node
+                         or (isinstance(node, list) and len(node) == 1
+                             and node[0] is parent[parentref]))
                 ):
                     seq_deletes.setdefault(
                         id(parent), (parent, set()))[1].add(
